@@ -143,7 +143,7 @@ def seq_models(quick):
 
 def seq_lines(n, rng, quick):
     idx = list(range(n))
-    ls = ["seq reprepare", "seq hidx_twice", "seq early", "seq lattice_copy", "seq partial_ops %d" % rng.choice(idx), "seq ops_twice %d" % rng.choice(idx), "seq labels", "seq indexinfo", "seq gfc"]
+    ls = ["seq reprepare", "seq hidx_twice", "seq early", "seq lattice_copy", "seq partial_ops %d" % rng.choice(idx), "seq ops_twice %d" % rng.choice(idx), "seq indexperm", "seq labels", "seq indexinfo", "seq gfc"]
     pairs = [(i, j) for i in idx for j in idx]
     for (i, j) in (rng.sample(pairs, 2) if quick else pairs[:9]):
         ls.append("seq gfmany %d %d %d" % (i, j, 40 if quick else 300))
